@@ -2,25 +2,25 @@ package main
 
 // plans maps a property to the scenarios its check runs (DESIGN.md §6).
 var plans = map[string][]planItem{
-	"C01": {{Scenario: "c01", Quick: 4000, Thorough: 400000}},
-	"C09": {{Scenario: "c09", Quick: 2000, Thorough: 100000}, {Scenario: "c09", Race: true, Quick: 240, Thorough: 20000}},
-	"C02": {{Scenario: "c02", Quick: 1500, Thorough: 100000}},
-	"C03": {{Scenario: "c03", Quick: 4000, Thorough: 400000}},
-	"C10": {{Scenario: "c10", Quick: 3000, Thorough: 300000, PerProc: 50}},
-	"C12": {{Scenario: "c12", Quick: 3000, Thorough: 200000}},
-	"C13": {{Scenario: "c13", Quick: 2800, Thorough: 200000}},
-	"C14": {{Scenario: "c14", Quick: 2000, Thorough: 150000}},
-	"C15": {{Scenario: "c15", Quick: 3000, Thorough: 200000}},
-	"C18": {{Scenario: "c18", Quick: 3000, Thorough: 200000}},
-	"C20": {{Scenario: "c20", Quick: 3000, Thorough: 200000}},
-	"C05": {{Scenario: "c05", Quick: 2200, Thorough: 150000, PerProc: 50}},
-	"C06": {{Scenario: "c06", Quick: 3000, Thorough: 200000}},
-	"C07": {{Scenario: "c07", Quick: 1500, Thorough: 60000}},
-	"C08": {{Scenario: "c08", Quick: 4000, Thorough: 300000}},
-	"C11": {{Scenario: "c11", Quick: 1440, Thorough: 144000}},
-	"C04": {{Scenario: "c04", Quick: 3000, Thorough: 300000}},
-	"C16": {{Scenario: "c16", Quick: 4000, Thorough: 400000}},
-	"C17": {{Scenario: "c17", Quick: 6000, Thorough: 600000}},
+	"C01": {{Scenario: "c01", Quick: 20000, Thorough: 1200000}},
+	"C02": {{Scenario: "c02", Quick: 6000, Thorough: 400000}},
+	"C03": {{Scenario: "c03", Quick: 20000, Thorough: 1200000}},
+	"C04": {{Scenario: "c04", Quick: 15000, Thorough: 1000000}},
+	"C05": {{Scenario: "c05", Quick: 8800, Thorough: 600000, PerProc: 50}},
+	"C06": {{Scenario: "c06", Quick: 6000, Thorough: 250000}},
+	"C07": {{Scenario: "c07", Quick: 8000, Thorough: 300000}},
+	"C08": {{Scenario: "c08", Quick: 20000, Thorough: 1200000}},
+	"C09": {{Scenario: "c09", Quick: 8000, Thorough: 400000}, {Scenario: "c09", Race: true, Quick: 480, Thorough: 30000}},
+	"C10": {{Scenario: "c10", Quick: 12000, Thorough: 700000, PerProc: 50}},
+	"C11": {{Scenario: "c11", Quick: 14400, Thorough: 1008000}},
+	"C12": {{Scenario: "c12", Quick: 12000, Thorough: 800000}},
+	"C13": {{Scenario: "c13", Quick: 11200, Thorough: 1008000}},
+	"C14": {{Scenario: "c14", Quick: 10000, Thorough: 800000}},
+	"C15": {{Scenario: "c15", Quick: 12000, Thorough: 1000000}},
+	"C16": {{Scenario: "c16", Quick: 16000, Thorough: 1000000}},
+	"C17": {{Scenario: "c17", Quick: 24000, Thorough: 1500000}},
+	"C18": {{Scenario: "c18", Quick: 12000, Thorough: 1000000}},
+	"C20": {{Scenario: "c20", Quick: 12000, Thorough: 1000000}},
 }
 
 type meta struct {
